@@ -362,6 +362,9 @@ class C12(Prop):
             grp = "s%d" % k
             paste = "\n".join(L(pre) + L(mid) + L(post))
             sub_text = "\n".join(L(mid))
+            if r.random() < 0.4:
+                # blank / whitespace-only lines around the imported text change nothing but line numbers
+                sub_text = r.choice(["\n", "\n\n", "  \n", "\t\n\n"]) + sub_text + r.choice(["", "\n", "\n  \n"])
             cases.append(fcase({("main.txt",): paste}, ("main.txt",), {}, group=grp, role="paste"))
             cases.append(fcase({("main.txt",): "\n".join(L(pre) + ["START " + dotted] + L(post)), sub: sub_text}, ("main.txt",), {}, group=grp, role="start"))
             cases.append(fcase({("main.txt",): "\n".join(L(pre) + L(mid))}, ("main.txt",), {}, group=grp, role="paste_nopost"))
@@ -389,6 +392,11 @@ class C12(Prop):
         out.append(fcase({("m.txt",): "VAR a 1\nSTARTCODE f\n$STRING a\nNOTEXIST b", ("f.txt",): "STRING out\nVAR a 5\nVAR b 6"}, ("m.txt",), expect_out=["STRING out", "STRING 5"]))
         out.append(fcase({("m.txt",): "STARTENV f\n$STRING b", ("f.txt",): "STRING hidden\nVAR b 6\nPRINT shown"}, ("m.txt",), expect_out=["STRING 6"]))
         out.append(fcase({("m.txt",): "START f\nSTRING after", ("f.txt",): "STRING a\n  bad indent\n      worse"}, ("m.txt",)))
+        # an imported file is parsed exactly like a file compiled directly: leading blank lines keep
+        # their line numbers, an indented first code line is a tab error
+        out.append(fcase({("m.txt",): "START f\nSTRING after", ("f.txt",): "\n\n    STRING indented first"}, ("m.txt",), expect_status="CE:InvalidTabError"))
+        out.append(fcase({("m.txt",): "START f\nSTRING after", ("f.txt",): "    STRING indented first\nSTRING b"}, ("m.txt",), expect_status="CE:InvalidTabError"))
+        out.append(fcase({("m.txt",): "START f\nSTRING after", ("f.txt",): "\n\nPRINT third line\nSTRING b  "}, ("m.txt",), expect_out=["STRING b  ", "STRING after"], expect_print_lines=[3]))
         out.append(fcase({("m.txt",): "START f\nSTRING after", ("f.txt",): "STRING a\x0cb\nSTRING c\x85d\u2028e"}, ("m.txt",), expect_out=["STRING a\x0cb", "STRING c\x85d\u2028e", "STRING after"]))
         return out
 
@@ -396,6 +404,14 @@ class C12(Prop):
         if "expect_out" in c:
             if i["status"] != "OK" or out_text(i) != c["expect_out"]:
                 return ("import_wrong_output", "expected %r, got %s %r" % (c["expect_out"], i["status"], out_text(i)[:6]))
+        if "expect_print_lines" in c and i["status"] == "OK":
+            if [p[1] for p in i["prints"]] != c["expect_print_lines"]:
+                return ("import_line_numbers", "prints of the imported file carry line numbers %r, expected %r" % ([p[1] for p in i["prints"]], c["expect_print_lines"]))
+        if "expect_status" in c:
+            want = c["expect_status"]
+            got = i["status"] + (":" + i.get("err", "") if i["status"] == "CE" else "")
+            if i["status"] != "CRASH" and got != want:
+                return ("import_not_like_direct", "an imported file must be parsed like a directly compiled one: expected %s, got %s" % (want, got))
         return None
 
     def group_oracle(self, cases, impls):
